@@ -295,6 +295,56 @@ def qsortAuxD (lt : α → α → Bool) : Nat → List α → Nat → Nat → Op
 def qsortList (lt : α → α → Bool) (xs : List α) : Option (List α) :=
   qsortAux lt (xs.length + 1) xs 0 xs.length
 
+/-! ### the element temporaries of `quicksort`
+`T p = a[n / 2];` copy-constructs the pivot at the start of every pass of the `while` and destroys it at the end of that
+pass (after the nested call on the smaller part, before the next pass); `swap(*l, *r)` is `T A = a; a = b; b = A;`:
+one copy construction, two assignments, one destruction.  `Tmp` is the ledger of these constructor / destructor calls. -/
+
+structure Tmp where
+  live : Int     -- element objects alive (the global instance counter of the counted element type)
+  made : Nat     -- copy constructions so far
+  freed : Nat    -- destructions so far
+  peak : Int     -- largest value `live` has had
+  deriving Repr, DecidableEq
+
+def Tmp.ctor (t : Tmp) : Tmp := ⟨t.live + 1, t.made + 1, t.freed, if t.peak < t.live + 1 then t.live + 1 else t.peak⟩
+def Tmp.dtor (t : Tmp) : Tmp := ⟨t.live - 1, t.made, t.freed + 1, t.peak⟩
+
+/-- `swap(*l, *r)` with its temporary `A` -/
+def swapAtT (xs : List α) (i j : Nat) (t : Tmp) : Option (List α × Tmp) :=
+  (swapAt xs i j).map fun ys => (ys, t.ctor.dtor)
+
+/-- `partLoop` with the ledger -/
+def partLoopT (lt : α → α → Bool) (p : α) (sf : Nat) : Nat → List α → Nat → Nat → Tmp → Option ((List α × Nat × Nat) × Tmp)
+  | 0, _, _, _, _ => none
+  | f + 1, xs, l, r1, t =>
+    if l + 1 ≤ r1 then
+      (scanL lt p xs sf l).bind fun l' =>
+      (scanR lt p xs sf r1).bind fun r1' =>
+      if l' + 1 ≤ r1' then
+        (swapAtT xs l' (r1' - 1) t).bind fun x => partLoopT lt p sf f x.1 (l' + 1) (r1' - 1) x.2
+      else partLoopT lt p sf f xs l' r1' t
+    else some ((xs, l, r1), t)
+
+/-- `qsortAux` with the ledger: the pivot is constructed before the partition, is alive during the nested call and is
+destroyed before the next pass of the `while` -/
+def qsortAuxT (lt : α → α → Bool) : Nat → List α → Nat → Nat → Tmp → Option (List α × Tmp)
+  | 0, _, _, _, _ => none
+  | f + 1, xs, a, n, t =>
+    if n < 2 then some (xs, t) else
+    match xs[a + n / 2]? with
+    | none => none
+    | some p =>
+      (partLoopT lt p (n + 2) (n + 2) xs a (a + n) t.ctor).bind fun rt =>
+      let r := rt.1
+      if r.2.2 - a < a + n - r.2.1 then
+        (qsortAuxT lt f r.1 a (r.2.2 - a) rt.2).bind fun x => qsortAuxT lt f x.1 r.2.1 (a + n - r.2.1) x.2.dtor
+      else
+        (qsortAuxT lt f r.1 r.2.1 (a + n - r.2.1) rt.2).bind fun x => qsortAuxT lt f x.1 a (r.2.2 - a) x.2.dtor
+
+def qsortListT (lt : α → α → Bool) (xs : List α) (t : Tmp) : Option (List α × Tmp) :=
+  qsortAuxT lt (xs.length + 1) xs 0 xs.length t
+
 /-- `Array<T>::sort()` / `sort(Less)` -/
 def sortB (lt : α → α → Bool) (s : BS α) : Option (BS α) :=
   (elems s).bind fun l => (qsortList lt l).bind fun l' => assignFrom l' s 0
